@@ -28,10 +28,13 @@ if [ ! -d /tmp/evalrepo ]; then git -C /repo worktree add -q --detach /tmp/evalr
 git -C /tmp/evalrepo checkout -q -- . ; git -C /tmp/evalrepo checkout -q --detach $(git -C /repo rev-parse HEAD)
 git -C /tmp/evalrepo apply "$OUT/patch.diff" || { echo "patch does not apply to /repo HEAD"; exit 2; }
 mkdir -p /tmp/evalh /tmp/evalv
-rsync -a --delete --exclude target --exclude fuzz $V/harness/ /tmp/evalh/
+rsync -a --delete --exclude target --exclude fuzz ${EVAL_SRC:-$V/harness}/ /tmp/evalh/
 sed -i 's#path = "/repo"#path = "/tmp/evalrepo"#' /tmp/evalh/Cargo.toml
 rsync -a --delete $V/known $V/regress $V/known_findings.json /tmp/evalv/
 ( cd /tmp/evalh && cargo build --profile checked --bin vcheck 2>/tmp/evalh/build.log ) || { echo "scratch harness build failed"; tail -20 /tmp/evalh/build.log; git -C /tmp/evalrepo checkout -q -- .; exit 2; }
+case " $PROPS " in *" C17 "*|*" C19 "*)
+  ( cd /tmp/evalh && cargo build --profile plain --bin vcheck 2>>/tmp/evalh/build.log ) && export VERIF_PLAIN_BIN=/tmp/evalh/target/plain/vcheck ;;
+esac
 RES=""
 for p in $PROPS; do
   o=$(VERIF_DIR=/tmp/evalv /tmp/evalh/target/checked/vcheck $p quick 2>&1); rc=$?
